@@ -103,6 +103,7 @@ def parseLine (views : Views) (ws : List String) : Option (Views × Option TEv) 
       ev (.status (← parseNat i) (← parseNat st) (← parseBool il) (← parseNat lid) (← parseNat tok) (← parseNat rev) (← parseBool il2))
     | ["observe", i] => ev (.observe (← parseNat i))
     | ["wleft", n] => ev (.wleft (← parseNat n))
+    | ["slowsink"] => ev .slowSink
     | ["promgauge", i, v] => ev (.promGauge (← parseNat i) (← parseInt v))
     | ["promtrans", i, n] => ev (.promTrans (← parseNat i) (← parseNat n))
     | ["mpanic", i, m] => ev (.metricsPanic (← parseNat i) m)
